@@ -87,8 +87,17 @@ def cls_int_level_name(d):
     return exc is None or exc.startswith("IndexError('Too many levels")
 
 
+def cls_one_level_mi(d):
+    """The single index level of an operand is held by a one-level MultiIndex: _IndexLevelCache looks the level up by
+    `index.name`, which is None for every MultiIndex -> KeyError(None)."""
+    if 'prm' not in d or not isinstance(d.get('prm'), dict):
+        return False
+    O, P = _ops(d)
+    return bc.one_level_multiindex(O, P) and str(d.get('exception', '')).startswith('KeyError(None')
+
+
 CLASSES = {'coincident_codes': cls_coincident, 'contained_extra_key': cls_contained, 'series_nonstring_keys_array': cls_nonstring,
-           'integer_level_name': cls_int_level_name}
+           'integer_level_name': cls_int_level_name, 'one_level_multiindex': cls_one_level_mi}
 
 
 # ----------------------------------------------------------------------------------------- one frame-to-frame case
@@ -138,7 +147,7 @@ def shrink(O, P, what):
             for i in range(len(X.keys)):
                 if len(X.keys) <= 1:
                     break
-                Y = bc.Operand(X.kind, X.levels, X.keys[:i] + X.keys[i + 1:], X.cols, X.base, X.name)
+                Y = X.clone(keys=X.keys[:i] + X.keys[i + 1:])
                 cand = (Y, cur[1]) if which == 0 else (cur[0], Y)
                 if fails(*cand):
                     cur, changed = cand, True
@@ -146,7 +155,7 @@ def shrink(O, P, what):
             if changed:
                 break
             if X.kind == 'F' and len(X.cols) > 1:
-                Y = bc.Operand(X.kind, X.levels, X.keys, X.cols[:1], X.base, X.name)
+                Y = X.clone(cols=X.cols[:1])
                 cand = (Y, cur[1]) if which == 0 else (cur[0], Y)
                 if fails(*cand):
                     cur, changed = cand, True
@@ -353,7 +362,7 @@ def frame_cases(res, pairs, tag):
         if f is not None:
             what, extra = f
             if reported.get(what, 0) < 3:
-                so, sp = shrink(O, P, what) if not (in_known_class or int_named) else (O, P)
+                so, sp = shrink(O, P, what) if not (in_known_class or int_named or bc.one_level_multiindex(O, P)) else (O, P)
                 if report(res, so, sp, what, extra):
                     reported[what] = reported.get(what, 0) + 1
         elif not c.inq and c.ob.raised is None and not c.intact:
@@ -363,11 +372,15 @@ def frame_cases(res, pairs, tag):
         if t is None:
             stats['not expressible in the model (NaN key component / foreign row)'] = stats.get('not expressible in the model (NaN key component / foreign row)', 0) + 1
             continue
-        if int_named and f is not None:
-            # the model knows level names only as names (pandas' name/number confusion is not modelled): where the oracle above
-            # found the property violated on the implementation (reported / classified there) there is nothing to compare
-            stats['integer level name: not compared with the model (property fails on the implementation)'] = \
-                stats.get('integer level name: not compared with the model (property fails on the implementation)', 0) + 1
+        if bc.one_level_multiindex(O, P):
+            k3 = 'one-level MultiIndex operand: ' + ('property holds' if f is None else 'property FAILS (known finding one-level-multiindex or reported)')
+            stats[k3] = stats.get(k3, 0) + 1
+        if (int_named or bc.one_level_multiindex(O, P)) and f is not None:
+            # the model knows level names only as names and an index only as level names + keys (pandas' name/number confusion
+            # and the Index / one-level MultiIndex distinction are not modelled): where the oracle above found the property
+            # violated on the implementation (reported / classified there) there is nothing to compare
+            k3 = 'integer level name / one-level MultiIndex: not compared with the model (property fails on the implementation)'
+            stats[k3] = stats.get(k3, 0) + 1
             continue
         if in_known_class and c.inq:
             # the model reproduces the registered defects; where the implementation no longer shows one (it satisfies
